@@ -415,9 +415,24 @@ func vfWatchLoop() {
 		n := runtime.Stack(buf, true)
 		dump := string(buf[:n])
 		class, detail := vfClassifyDump(dump)
+		if class == "mutex-deadlock" {
+			// a deadlock is stable: a second dump one second later must show the same picture
+			time.Sleep(time.Second)
+			n2 := runtime.Stack(buf, true)
+			if c2, _ := vfClassifyDump(string(buf[:n2])); c2 != class {
+				class, detail = "unclassified", ""
+			}
+		}
 		r := ctx.res
 		r.mu.Lock()
 		res := r.res
+		// the scenario may still be running: detach the maps it mutates
+		res.Counters = map[string]int64{}
+		for k, v := range r.res.Counters {
+			res.Counters[k] = v
+		}
+		res.Violations = append([]vfViolation(nil), r.res.Violations...)
+		res.Witness = append([]string(nil), r.res.Witness...)
 		r.mu.Unlock()
 		res.Spec = ctx.spec
 		res.Why = "watchdog: " + class
@@ -483,7 +498,7 @@ func vfClassifyDump(dump string) (string, string) {
 					first = vfFirstSctpFrame(b)
 				}
 			}
-		} else if strings.Contains(head, "[running]") || strings.Contains(head, "[runnable]") {
+		} else if strings.Contains(head, "[running") || strings.Contains(head, "[runnable") {
 			if !isHarnessOnly && !strings.Contains(b, "vfWatchLoop") {
 				nRun++
 				if first == "" {
